@@ -46,7 +46,7 @@ def stages(tier, seed, bins):
             c["timesteps"] = rnd.choice([1, 2, 3, 5, 10])
         # the same data measured in another unit (widths / kernel parameters converted with it): every clause is scale free
         if rnd.random() < 0.15:
-            xs = rnd.choice([1e-6, 1e-3, 1e3, 1e6])
+            xs = rnd.choice([1e-12, 1e-9, 1e-6, 1e-3, 1e3, 1e6, 1e9])
             c["xscale"] = xs
             c["width"] = repr(float(c["width"]) * xs * xs)
         cases.append(c)
